@@ -11,6 +11,7 @@ import (
 	"reservoir/zzverif/vnet"
 	"reservoir/zzverif/vrun"
 	"reservoir/zzverif/vsched"
+	"reservoir/zzverif/vtime"
 )
 
 var vnetIdentify = vnet.Identify
@@ -37,7 +38,19 @@ func init() {
 	vrun.Register("cache/sched", scenarioSched)
 }
 
+// evRec is one removal made by the janitor code (eviction or cleanup), as seen by the
+// wrappers that traceRemovals puts around the janitor's removeEntry / cacheIterator.
+type evRec struct {
+	Thread int    // scheduler thread that removed
+	Key    string // harness name of the key
+	Before int64  // the cache's own size figure immediately before the removal
+	Since  int    // stamp of that thread's previous checkpoint (end of its scan, or its previous removal)
+	At     int    // stamp of the removal
+	Expired bool  // the entry had expired (the cleanup path removes those whatever the size)
+}
+
 type schedRun struct {
+	evs  []evRec
 	h    *hcache
 	recs [][]opRec // per thread; index 0 = main
 	end  view
@@ -67,6 +80,9 @@ func scenarioSched(c *vrun.Ctx) {
 			h := newHCache(p.cacheParams)
 			r := &schedRun{h: h, recs: make([][]opRec, len(p.Threads)+1)}
 			last = r
+			if has("evict-stops-at-target") {
+				r.traceRemovals()
+			}
 			initOps := h.plan(p.Init)
 			thr := make([][]pop, len(p.Threads))
 			for t := range p.Threads {
@@ -119,6 +135,11 @@ func scenarioSched(c *vrun.Ctx) {
 				for _, k := range p.ExpectPresent {
 					if _, ok := r.end.Retrievable[k]; !ok {
 						c.Violation("C13/"+p.Name+"/fresh-entry-removed", "entry "+k+" was stored fresh and nothing but the cleanup cycle could remove it, yet it is gone at the end: "+r.history(), x)
+					}
+				}
+				if has("evict-stops-at-target") {
+					for _, prob := range r.overEvictions(int64(float64(p.Limit) * 0.8)) {
+						c.Violation("C13/"+p.Name+"/"+prob.class, prob.msg+" in "+r.history(), x)
 					}
 				}
 				if has("integrity") {
@@ -253,6 +274,90 @@ func (r *schedRun) integrityProblems() []problem {
 				out = append(out, problem{"replaced-body-served", fmt.Sprintf("T%d %s [%d,%d] returned %s although T%d %s [%d,%d] had replaced/removed it before the read began", o.Thread, o.Op, o.Call, o.Ret, ident, x.Thread, x.Op, x.Call, x.Ret)})
 				break
 			}
+		}
+	}
+	return out
+}
+
+// traceRemovals wraps the janitor's own removeEntry and cacheIterator (function values
+// handed to it by the cache) so that every removal is recorded with the size the cache
+// reported just before it. The wrappers add no scheduling points.
+func (r *schedRun) traceRemovals() {
+	h := r.h
+	var fns *cacheFunctions[vmeta]
+	if h.mem != nil {
+		fns = &h.mem.janitor.cacheFns
+	} else {
+		fns = &h.file.janitor.cacheFns
+	}
+	var checkpoint [64]int
+	iter, remove, size := fns.cacheIterator, fns.removeEntry, fns.getCacheSize
+	// read the entry maps directly: one thread runs at a time, and a lock here would be a scheduling point
+	getMeta := func(k CacheKey) (*EntryMetadata[vmeta], bool) {
+		if h.mem != nil {
+			e, ok := h.mem.entries[k]
+			if !ok {
+				return nil, false
+			}
+			return e.meta, true
+		}
+		m, ok := h.file.entriesMetadata[k]
+		return m, ok
+	}
+	fns.cacheIterator = func(yield func(CacheKey, *EntryMetadata[vmeta]) bool) {
+		iter(yield)
+		if t := vsched.CurrentThread(); t >= 0 && t < len(checkpoint) {
+			checkpoint[t] = vsched.Stamp()
+		}
+	}
+	fns.removeEntry = func(k CacheKey) error {
+		t := vsched.CurrentThread()
+		if t < 0 || t >= len(checkpoint) {
+			return remove(k)
+		}
+		ev := evRec{Thread: t, Key: h.names[k], Before: size(), Since: checkpoint[t], At: vsched.Stamp()}
+		if m, ok := getMeta(k); ok && !m.Expires.After(vtime.Peek()) {
+			ev.Expired = true
+		}
+		r.evs = append(r.evs, ev)
+		err := remove(k)
+		checkpoint[t] = vsched.Stamp()
+		return err
+	}
+}
+
+// overEvictions is the "stops as soon as the target is reached" oracle under
+// concurrency. The eviction loop looks at the size before every removal; a removal made
+// while the cache already reported a size at or below the target is legitimate only if
+// that size was reached after the look, i.e. if somebody else freed bytes between this
+// thread's previous checkpoint (the end of its scan or its previous removal: the look
+// comes after it) and the removal. Any harness operation of another thread that
+// overlaps that window, and any removal by another janitor thread inside it, excuses it.
+func (r *schedRun) overEvictions(target int64) []problem {
+	var out []problem
+	for _, ev := range r.evs {
+		if ev.Before > target || ev.Expired {
+			continue
+		}
+		excused := false
+		for _, t := range r.recs {
+			for _, o := range t {
+				if o.Call < ev.At && o.Ret > ev.Since && !(strings.HasPrefix(o.Op, "T") || strings.HasPrefix(o.Op, "Q")) {
+					// the operation that itself runs the eviction (a store at the limit) is the one whose
+					// window this is; only operations of other threads count
+					if o.Sched != ev.Thread {
+						excused = true
+					}
+				}
+			}
+		}
+		for _, o := range r.evs {
+			if o.Thread != ev.Thread && o.At > ev.Since && o.At < ev.At {
+				excused = true
+			}
+		}
+		if !excused {
+			out = append(out, problem{"evicted-at-or-below-target", fmt.Sprintf("entry %s was evicted (stamp %d) although the cache already reported %d bytes <= target %d and nothing else freed bytes since the evicting thread's previous step (stamp %d)", ev.Key, ev.At, ev.Before, target, ev.Since)})
 		}
 	}
 	return out
